@@ -9,37 +9,6 @@ moment the request is applied, in every reachable configuration.
 namespace Xp.C08
 open Xp.Gen
 
-/-- the stored object `o` under key `k` is a later version of the copy `a` read earlier: it
-agrees with it on the fields nothing changes, and on the editable ones (`ref`, `flag`)
-if it still has the resourceVersion of the copy (or the kind is not editable) -/
-structure Obj.Same (k : Key) (a o : Obj) : Prop where
-  rv : a.rv ≤ o.rv
-  uid : o.uid = a.uid
-  of_ : o.of = a.of
-  owners : o.owners = a.owners
-  refKind : o.refKind = a.refKind
-  ofKind : o.ofKind = a.ofKind
-  same : (o.rv = a.rv ∨ editable k.kind = false) → o.ref = a.ref ∧ o.flag = a.flag
-
-/-- facts a reconcile can learn from a reply and that no later step invalidates -/
-inductive Fact where
-  | gone (k : Key)
-  | goneOrDel (k : Key)
-  | noneOf (kd : Kind)
-  | stopped (c : String)
-  | immut (k : Key) (a : Obj)
-  | pkgsSub (ps : List String)
-  | notInLock (n : String)
-
-def Fact.holds (s : St) : Fact → Prop
-  | .gone k => find s k = none
-  | .goneOrDel k => ∀ o, find s k = some o → o.del = true
-  | .noneOf kd => ∀ o ∈ s.objs, o.key.kind ≠ kd
-  | .stopped c => c ∉ s.running
-  | .immut k a => ∀ o, find s k = some o → Obj.Same k a o
-  | .pkgsSub ps => ∀ l, find s lockKey = some l → ∀ p ∈ l.pkgs, p ∈ ps
-  | .notInLock n => ∀ l, find s lockKey = some l → n ∉ l.pkgs
-
 theorem Fact.holds_le {s s' : St} (hle : Le s s') (f : Fact) (hf : f.holds s) : f.holds s' := by
   cases f with
   | gone k =>
@@ -84,19 +53,6 @@ theorem Fact.holds_le {s s' : St} (hle : Le s s') (f : Fact) (hf : f.holds s) : 
     intro l' h hn
     obtain ⟨l, hl, hm⟩ := hle.find lockKey l' h
     exact hf l hl (hm.pkgs n hn)
-
-/-- what a reply teaches -/
-def learn : Req → Resp → List Fact
-  | .get k, .notFound => [.gone k]
-  | .get k, .obj o => .immut k o :: (if k = lockKey then [.pkgsSub o.pkgs] else [])
-  | .delete k _, .ok => [.goneOrDel k]
-  | .delete k _, .notFound => [.gone k]
-  | .list kd, .list [] => [.noneOf kd]
-  | .stop c, .ok => [.stopped c]
-  | .lockRemove _ n, .obj _ => [.notInLock n]
-  | _, _ => []
-
-def facts (h : Hist) : List Fact := h.flatMap (fun p => learn p.1 p.2)
 
 theorem facts_append (h : Hist) (r : Req) (x : Resp) : facts (h ++ [(r, x)]) = facts h ++ learn r x := by
   simp [facts]
@@ -524,6 +480,7 @@ theorem stepOK_crash (s : Sys) (hi : Inv s) (st' : St) (hs : Step s.st st') :
 theorem stepOK_act1 (s : Sys) (a : Act) (ha : a.isCreate = false) (hi : Inv s) : StepOK s (s.act1 a) := by
   cases a with
   | create o => cases ha
+  | live l => cases ha
   | spawn c n =>
     refine ⟨hi.wf, ?_, Le.refl _⟩
     intro t ht
